@@ -13,11 +13,31 @@ TAG_SPELL = {'lp': ['('], 'rp': [')'], 'lb': ['['], 'rb': [']'], 'case': ['case'
              'ws': [' ', '\n', '  ']}
 
 
+_x_extra = None
+
+
+def x_fillers():
+    """filler spellings: besides names and literals, table keywords that merely CONTAIN a delimiter word
+    (PERFORM, BEFORE, FOREIGN contain FOR; NOTIFY contains IF; APPEND contains END ...) - they are fillers too"""
+    global _x_extra
+    if _x_extra is None:
+        from . import extract
+        from sqlparse import lexer
+        out = []
+        for w in sorted(extract.all_keyword_words()):
+            if any(d in w and d != w for d in ('FOR', 'IF', 'END', 'CASE', 'BEGIN', 'LOOP')) and w.isalpha():
+                toks = list(lexer.tokenize(w.lower()))
+                if len(toks) == 1 and treerec.delimiter_tag(type('T', (), {'ttype': toks[0][0], 'value': toks[0][1]})()) == 'x':
+                    out.append(w.lower())
+        _x_extra = out[::max(1, len(out) // 14)]
+    return _x_extra
+
+
 def spell_tags(tags, rng, canonical=False):
     parts = []
     prev = None
     for t in tags:
-        s = TAG_SPELL[t][0] if canonical else vary_inner_ws(rng.choice(TAG_SPELL[t]), rng)
+        s = TAG_SPELL[t][0] if canonical else vary_inner_ws(rng.choice(TAG_SPELL[t] + (x_fillers() if t == 'x' else [])), rng)
         if prev is not None and t != 'ws' and prev != 'ws':
             if t == 'lb' and prev in ('x', 'rp', 'rb'):
                 pass                      # x[ : array subscript bracket (Punctuation)
